@@ -112,7 +112,13 @@ def op_trace(req):
         return t
 
     p.lexer.token = token
-    orig_err = p.p_error
+    orig_err = p.yacc.errorfunc
+
+    def errf(tok):
+        events.append(["perr", None if tok is None else tok.type])
+        return orig_err(tok)
+
+    p.yacc.errorfunc = errf
     p.set_default_flags_in_lexer()
     res = p.yacc.parse(req["s"], lexer=p.lexer)
     return {"events": events, "result": enc(res)}
